@@ -59,6 +59,17 @@ C02Causal(H, c, S) ==
            [] OTHER -> {}
          : i \in T \ {c}}
 
+\* the same for the relation an operation itself REPORTS (whatever the history was): if it refers to something that is
+\* part of this circuit, that something is listed first
+C02CausalReported(H, c, S) ==
+  UNION {LET L == S.leaves[i].rlink IN
+         IF L.k = "one" /\ L.ref \in DOMAIN S.leaves
+         THEN When(Pos(S, L.ref) < Pos(S, i), Fail("C02.causal.reported", i, <<"refers to", L.ref, "listed at", Pos(S, L.ref), "own position", Pos(S, i)>>))
+         ELSE IF L.k = "one" /\ L.ref \in DOMAIN S.comps /\ L.ref \in DOMAIN H
+              THEN When(Before(H, S, L.ref, i) \/ i \in LeafSet(H, L.ref), Fail("C02.causal.reported", i, <<"refers to block", L.ref>>))
+              ELSE {}
+         : i \in DOMAIN S.leaves}
+
 \* --------------------------------------------------------------------- C01
 \* local scheduling equations on the reported values, using the specification's links
 C01Eq(H, c, S) ==
@@ -127,7 +138,7 @@ C06Reset(c, S) == UNION {When(S.comps[b].nrep = 1, Fail("C06.reset", b, S.comps[
 
 \* ------------------------------------------------- the battery for one observation
 ObsClauses(H, E, c, S, applied) ==
-  C02Complete(H, c, S) \cup C02Stable(c, S) \cup C02Contig(H, c, S) \cup C02Causal(H, c, S)
+  C02Complete(H, c, S) \cup C02Stable(c, S) \cup C02Contig(H, c, S) \cup C02Causal(H, c, S) \cup C02CausalReported(H, c, S)
   \cup C01Eq(H, c, S) \cup C01Dur(H, E, c, S) \cup C04Span(H, c, S) \cup C04Followers(H, c, S) \cup C03Memo(S)
   \cup (IF applied THEN C07Indices(c, S) \cup C06Reset(c, S) ELSE {})
 
@@ -154,7 +165,7 @@ SpecSnapshot(H, E, c) ==
       mseq == SelectSeq(order, meas) IN
   [top |-> c, order |-> order, order2 |-> order,
    leaves |-> [i \in Range(order) |->
-      [kind |-> H[i].kind, qs |-> H[i].qs, dur |-> H[i].dur, tag |-> H[i].tag, pos |-> IndexIn(order, i), home |-> H[i].home,
+      [kind |-> H[i].kind, qs |-> H[i].qs, dur |-> H[i].dur, tag |-> H[i].tag, pos |-> IndexIn(order, i), home |-> H[i].home, rlink |-> H[i].link,
        start |-> StartOf(H, E, i), dur_v |-> DurOf(H, E, i), end |-> EndOf(H, E, i), start_c |-> StartOf(H, E, i),
        acq_c |-> IF meas(i) THEN IndexIn(mseq, i) - 1 ELSE -2,
        acq_q |-> IF meas(i) THEN Cardinality({k \in 1..(IndexIn(mseq, i) - 1) : H[mseq[k]].qs = H[i].qs}) ELSE -2]],
